@@ -513,6 +513,107 @@ func arityLabel(b *ssa.BasicBlock, si int) (fixedOK, varOK bool) {
 	return
 }
 
+// arityHelperLabel: the edge `h(...) == nil` where h is a package function returning one error and every
+// `return nil` of h is reachable only through edges establishing the arity fact (a checking helper).
+func arityHelperLabel(p *Prog, b *ssa.BasicBlock, si int) (fixedOK, varOK bool) {
+	a, ok := edgeAtom(b, si)
+	if !ok || a.Op != token.EQL {
+		return
+	}
+	x, y := a.X, a.Y
+	if isNilConst(x) {
+		x, y = y, x
+	}
+	if !isNilConst(y) {
+		return
+	}
+	c, isC := x.(*ssa.Call)
+	if !isC {
+		return
+	}
+	h := c.Call.StaticCallee()
+	if h == nil || !p.InPkg(h) || len(h.Blocks) == 0 || h.Signature.Results().Len() != 1 || !isErrorType(h.Signature.Results().At(0).Type()) {
+		return
+	}
+	fixedOK, varOK = true, true
+	nret := 0
+	for _, hb := range h.Blocks {
+		ret, isR := hb.Instrs[len(hb.Instrs)-1].(*ssa.Return)
+		if !isR {
+			continue
+		}
+		var nilBlocks []*ssa.BasicBlock
+		switch rv := retVal(ret, 0).(type) {
+		case *ssa.Const:
+			if isNilConst(rv) {
+				nilBlocks = append(nilBlocks, hb)
+			}
+		case *ssa.Phi:
+			if rv.Block() != hb {
+				return false, false
+			}
+			for i, e := range rv.Edges {
+				if isNilConst(e) {
+					nilBlocks = append(nilBlocks, hb.Preds[i])
+				} else if !nonNilErrValue(p, e) {
+					return false, false
+				}
+			}
+		default:
+			if !nonNilErrValue(p, rv) {
+				return false, false
+			}
+		}
+		for _, nb := range nilBlocks {
+			nret++
+			for _, which := range []string{"fixed", "var"} {
+				if pathAvoiding(h, nb, func(b2 *ssa.BasicBlock, s2 int) bool {
+					f, v := arityLabel(b2, s2)
+					if which == "fixed" {
+						return f
+					}
+					return v
+				}) {
+					if which == "fixed" {
+						fixedOK = false
+					} else {
+						varOK = false
+					}
+				}
+			}
+		}
+	}
+	if nret == 0 {
+		return false, false
+	}
+	return
+}
+
+// nonNilErrValue: a boxed concrete value, or the result of a package constructor all of whose returns are boxed values.
+func nonNilErrValue(p *Prog, v ssa.Value) bool {
+	switch v := v.(type) {
+	case *ssa.MakeInterface:
+		return true
+	case *ssa.Call:
+		g := v.Call.StaticCallee()
+		if g == nil || !p.InPkg(g) || len(g.Blocks) == 0 {
+			return false
+		}
+		for _, gb := range g.Blocks {
+			if ret, ok := gb.Instrs[len(gb.Instrs)-1].(*ssa.Return); ok {
+				if len(ret.Results) != 1 {
+					return false
+				}
+				if _, isMk := retVal(ret, 0).(*ssa.MakeInterface); !isMk {
+					return false
+				}
+			}
+		}
+		return true
+	}
+	return false
+}
+
 // pathAvoiding reports whether target is reachable from fn's entry without crossing an edge for which ok(b,si) holds.
 func pathAvoiding(fn *ssa.Function, target *ssa.BasicBlock, ok func(b *ssa.BasicBlock, si int) bool) bool {
 	seen := map[*ssa.BasicBlock]bool{}
@@ -545,6 +646,9 @@ func ruleArity(p *Prog, r *Result) {
 	check = func(fn *ssa.Function, target *ssa.BasicBlock, which string, depth int) bool {
 		unguarded := pathAvoiding(fn, target, func(b *ssa.BasicBlock, si int) bool {
 			f, v := arityLabel(b, si)
+			if !f && !v {
+				f, v = arityHelperLabel(p, b, si)
+			}
 			if which == "fixed" {
 				return f
 			}
